@@ -5,6 +5,39 @@ pub struct Rng {
     s: [u64; 4],
 }
 
+// Tape mode (coverage-guided, structure-aware fuzzing and its replay): while a tape is set on the current thread, every
+// random decision of every generator is read from it, two bytes per decision; past its end a generator seeded from the
+// tape's hash takes over, so a case is a pure function of the tape.
+use std::cell::RefCell;
+use std::sync::atomic::{AtomicBool, Ordering};
+static TAPE_ON: AtomicBool = AtomicBool::new(false);
+thread_local! {
+    static TAPE: RefCell<Option<(Vec<u8>, usize, Rng)>> = const { RefCell::new(None) };
+}
+pub fn set_tape(data: &[u8]) {
+    let fallback = Rng::new(fnv(data));
+    TAPE.with(|t| *t.borrow_mut() = Some((data.to_vec(), 0, fallback)));
+    TAPE_ON.store(true, Ordering::Relaxed);
+}
+pub fn clear_tape() {
+    TAPE.with(|t| *t.borrow_mut() = None);
+    TAPE_ON.store(false, Ordering::Relaxed);
+}
+fn tape_next() -> Option<u64> {
+    TAPE.with(|t| {
+        let mut g = t.borrow_mut();
+        let (data, pos, fallback) = g.as_mut()?;
+        if *pos + 2 <= data.len() {
+            let v = u16::from_le_bytes([data[*pos], data[*pos + 1]]) as u64;
+            *pos += 2;
+            // the value in all four 16-bit lanes: the high bits drive below(), the low bits drive bool()/u8()
+            Some(v.wrapping_mul(0x0001_0001_0001_0001))
+        } else {
+            Some(fallback.next_raw())
+        }
+    })
+}
+
 pub fn splitmix(x: &mut u64) -> u64 {
     *x = x.wrapping_add(0x9E3779B97F4A7C15);
     let mut z = *x;
@@ -44,6 +77,15 @@ impl Rng {
     }
 
     pub fn next(&mut self) -> u64 {
+        if TAPE_ON.load(Ordering::Relaxed) {
+            if let Some(v) = tape_next() {
+                return v;
+            }
+        }
+        self.next_raw()
+    }
+
+    fn next_raw(&mut self) -> u64 {
         let r = self.s[1].wrapping_mul(5).rotate_left(7).wrapping_mul(9);
         let t = self.s[1] << 17;
         self.s[2] ^= self.s[0];
